@@ -134,9 +134,13 @@ def mutate_key(rng, steps):
         j = rng.randrange(len(steps))
         idx2 = list(idx); idx2[j] = steps[j][2] + rng.choice([0, 1, 1000])
         return key_ints(idx2, "usize")
-    if m == 1 and steps:      # unknown / odd name
+    if m == 1 and steps:      # unknown / odd name, numerals beyond the machine word
         j = rng.randrange(len(steps))
-        n2 = list(names); n2[j] = rng.choice(["zz", "", " 1", "-0", "0x1", "1e0", n2[j] + "x", n2[j].upper() + "_"])
+        n2 = list(names); n2[j] = rng.choice(["zz", "", " 1", "-0", "0x1", "1e0", n2[j] + "x", n2[j].upper() + "_",
+                                              "18446744073709551616", "1844674407370955161%d" % (6 + steps[j][0] % 4),
+                                              "99999999999999999999999999", "0000000000000000000000%d" % steps[j][0], "+%d" % steps[j][0]])
+        if rng.random() < 0.5:
+            return key_path(n2, rng.choice([47, 124])) if not any("/" in x or "|" in x for x in n2) else key_names(n2)
         return key_names(n2)
     if m == 2:                # surplus keys
         extra = [rng.choice(["0", "a", "f0", "1"]) for _ in range(rng.randint(1, 2))]
@@ -324,8 +328,8 @@ def coq_op(op, table=None):
     if o == "iter":
         opt = lambda k: ("(Some %s)" % coq_keys(op[k])) if op.get(k) else "None"
         tg = dict(op["tg"], cap=op["d"]) if op["tg"]["t"] == "idxd" else op["tg"]
-        return "OpIter %s %d%%nat %s %s %d%%nat %s %d%%nat" % (coq_target(tg), op["d"], opt("root0"), opt("root"), op.get("pre_steps", 0),
-                                               "true" if op.get("exact") else "false", op.get("max", 2000))
+        return "OpIter %s %d%%nat %s %s %d%%nat %s %d%%nat %s" % (coq_target(tg), op["d"], opt("root0"), opt("root"), op.get("pre_steps", 0),
+                                               "true" if op.get("exact") else "false", op.get("max", 2000), "true" if op.get("resolve") else "false")
     raise ValueError(o)
 
 
